@@ -141,11 +141,14 @@ def correspondence(ctx):
         lines.append("det w%d %s %d %d %s c 0 %d" % (w, frames.pstr(p), size, rng.randrange(1 << 30), rng.choice(["1000000", "3000000,500000", "65536"]), rng.randrange(1 << 30)))
     # directed: long-distance matching over a block-periodic input several round-buffer laps long, jobs of 1-2 MiB with jobSize * workers on
     # both sides of the window size: the matcher's window is segmented where the round input buffer wraps, and that place moves with the worker count
-    for i in range(5 if ctx.quick() else 40):
-        wl = rng.choice([22, 22, 21, 20])
-        p = {100: rng.choice([1, 1, 3]), 160: 1, 101: wl, 401: rng.choice([2097152, 2097152, 1048576]), 164: rng.choice([9, 9, 7]), 402: rng.choice([0, 3, 6, 9])}
-        lines.append("det w%d %s %d %d %s c 0 %d" % (rng.choice([2, 4, 6]), frames.pstr(p), rng.choice([64000000, 64000000, 48000000]), rng.randrange(1 << 29) * 2 + 1,
-                                                   rng.choice(["1000000", "3000000,500000"]), rng.randrange(1 << 30)))
+    for i in range(10 if ctx.quick() else 60):
+        if i % 2 == 0:
+            p = {100: 1, 160: 1, 101: 22, 401: 2097152, 164: 9}; w = rng.choice([4, 6]); size = 64000000
+        else:
+            wl = rng.choice([22, 21, 20])
+            p = {100: rng.choice([1, 1, 3]), 160: 1, 101: wl, 401: rng.choice([2097152, 1048576]), 164: rng.choice([9, 8, 7]), 402: rng.choice([0, 3, 6, 9])}
+            w = rng.choice([3, 4, 6]); size = rng.choice([64000000, 48000000])
+        lines.append("det w%d %s %d %d %s c 0 %d" % (w, frames.pstr(p), size, rng.randrange(1 << 29) * 2 + 1, rng.choice(["1000000", "3000000,500000"]), rng.randrange(1 << 30)))
     n_det = len(lines)
     lines += dict_history_lines(rng, ctx.quick())
     n_dict = len(lines) - n_det
